@@ -191,12 +191,14 @@ func params(n int, u string) (string, string) {
 	return strings.Join(ps, ", "), strings.Join(as, ", ")
 }
 
-// pending registers d deferred host probes at the start of a function body; dmark records that the
-// defer statement completed, so that the oracle knows the call is owed.
+// pending registers d deferred host probes at the start of a function body. dpre records that the defer
+// statement is about to run, dmark that it completed: the number of registrations lies between the two counts
+// (an interrupt can land between any two of the three statements), so the deferred call is owed at least
+// dmark times and at most dpre times.
 func pending(d int, u string) string {
 	s := ""
 	for i := 0; i < d; i++ {
-		s += fmt.Sprintf("defer dtick(%s%d)\ndmark(%s%d)\n", u, i+1, u, i+1)
+		s += fmt.Sprintf("dpre(%s%d)\ndefer dtick(%s%d)\ndmark(%s%d)\n", u, i+1, u, i+1, u, i+1)
 	}
 	return s
 }
@@ -563,7 +565,7 @@ func run(t *testing.T, c *harness.Case, verbose bool, onlyDefers bool) *harness.
 	var ctx *simrt.Ctx
 	var mu sync.Mutex
 	var ticks []tickRec
-	dticks, dmarks := map[int64]int{}, map[int64]int{}
+	dticks, dmarks, dpres := map[int64]int{}, map[int64]int{}, map[int64]int{}
 	var mainErr error
 	var mainDone bool
 	var mainTask *simrt.Task
@@ -595,6 +597,11 @@ func run(t *testing.T, c *harness.Case, verbose bool, onlyDefers bool) *harness.
 		e.Define("dmark", func(id int64) {
 			mu.Lock()
 			dmarks[id]++
+			mu.Unlock()
+		})
+		e.Define("dpre", func(id int64) {
+			mu.Lock()
+			dpres[id]++
 			mu.Unlock()
 		})
 		e.Define("hid", func(x interface{}) interface{} { simrt.Yield("host"); return x })
@@ -710,11 +717,15 @@ func run(t *testing.T, c *harness.Case, verbose bool, onlyDefers bool) *harness.
 			res.Counters["not_judged_script_did_not_stop"]++
 			return res
 		}
-		for id, n := range dmarks {
+		for id, hi := range dpres {
+			n := dmarks[id]
 			res.Counters["deferred_probes_owed"] += n
-			if dticks[id] != n {
+			if hi != n {
+				res.Counters["interrupt_landed_inside_a_defer_registration"]++
+			}
+			if dticks[id] < n || dticks[id] > hi {
 				res.Violation = "deferred-calls-lost-on-interrupt"
-				res.Detail = fmt.Sprintf("`defer dtick(%d)` was registered %d time(s) before the interrupt but ran %d time(s) by the time every task had finished\n%s", id, n, dticks[id], src)
+				res.Detail = fmt.Sprintf("`defer dtick(%d)` was registered between %d and %d time(s) before the interrupt but ran %d time(s) by the time every task had finished\n%s", id, n, hi, dticks[id], src)
 				res.Signature = "deferred-calls-lost-on-interrupt " + sig
 				return res
 			}
